@@ -37,7 +37,7 @@ PLAN = {
     "quick": dict(models=["BSearch_even_interp", "BSearch_skew_interp", "BSearch_bisect", "BSearch_any"],
                   monoderiv=12, lagrange=3, absint=400, long=60, wide=200, exh=EXH_QUICK),
     "thorough": dict(models=["BSearch_even_interp", "BSearch_skew_interp", "BSearch_bisect", "BSearch_any", "BSearch_any8"],
-                     monoderiv=60, lagrange=40, absint=20000, long=17000, wide=5000, exh=EXH_THOROUGH),
+                     monoderiv=100, lagrange=60, absint=40000, long=30000, wide=20000, exh=EXH_THOROUGH),
 }
 # number of TLC processes a trace kind is split into (JVM start + SelfCheck cost about 2 s per process);
 # an exhaustive search enumeration ("search") and a program ("prog") are never split
@@ -66,6 +66,14 @@ def run_harness(exe, args, out):
 
 def fhex(q):
     return float.hex(V.quad_to_float(q))
+
+
+QUAD_FIELDS = {"u", "ts", "t0", "t1", "A", "B", "C", "out", "xs", "ws", "rq", "qq", "M", "rows"}
+
+
+def human(ev, skip=()):
+    """event with its exactly logged doubles turned into floats (integer fields - search keys, positions - stay as they are)"""
+    return {k: (V.dequad(x) if k in QUAD_FIELDS else x) for k, x in ev.items() if k not in skip}
 
 
 def prog_line(ev):
@@ -138,7 +146,7 @@ def validate(oc, traces, workdir, tier, timeout=3000):
                 b2["g"] = ev.get("basis") or ev.get("var")
                 b2["sc"] = "d"
                 payload = {"family": "poly", "prog": [prog_line(ev)], "from": meta,
-                           "event": {k: V.dequad(x) for k, x in ev.items() if k not in ("M", "rows")}}
+                           "event": human(ev, skip=("M", "rows"))}
                 oc.bad_step(b2, payload)
             os.remove(cp)
             vp = cp + ".verdict.json"
@@ -157,7 +165,7 @@ def sample_events(oc, traces):
                 for i, ln in enumerate(fh):
                     if i == want[kind]:
                         ev = json.loads(ln)
-                        oc.samples.append({k: V.dequad(x) for k, x in ev.items()})
+                        oc.samples.append(human(ev))
                         break
 
 
